@@ -123,6 +123,7 @@ def judge(res, scratch, recs, cigar, reports=None, names=None):
     outp = os.path.join(scratch, "report.txt")
     if os.path.exists(outp):
         os.remove(outp)
+    res.next_call()
     out = fw.guarded(stat.run_stat, gaf_path=gaf, cigar_stat=cigar, output=outp, _capture_stdout=True)
     res.evaluations += 1
     e = expected(recs, cigar)
@@ -170,7 +171,7 @@ def plan(tier, seed):
 
 
 def run_shard(spec, tier, scratch):
-    res = fw.ShardResult()
+    res = fw.ShardResult().begin(spec, tier)
     A = alphabet()
     maxn = bounds(tier)["max_records"]
     reports = {}
